@@ -2,6 +2,8 @@
 
 Cases (all carry 'script'):
   kind 'prog'  arithmetic subset; the generator knows the trees ('eqs'), the flat tokens + layout ('stmts'), data, t
+  kind 'mix'   a 'prog' program with one-line verbatim statements (`self._V[t+k] = self._A[t+j] * c`) written between its equations:
+               order of the statements in Model.CODE and in the pass = order of the symbol list (values, accesses)
   kind 'text'  flat token sequences over the whole documented grammar (terms, functions, keywords, numerals, operators,
                verbatim fragments) with a random layout ('stmts')
   kind 'raw'   fixed corpus (hand-written expectation in 'expect') and a malformed stream (no expectation: only K speaks)
@@ -20,7 +22,9 @@ The oracle is the property itself on the real observation, independent of the mo
   text     expected Symbol.code / Symbol.equation computed from (tokens, layout) by the property's rule, compared as
            strings; for 'prog' additionally Python's `tokenize` of the real code against the tokens of the tree
   values   reference interpretation of the trees (fully parenthesised Python over numpy scalars, symbol-list order,
-           Gauss-Seidel) against the real store after one _evaluate(t): values, exception, frame, access sequence."""
+           Gauss-Seidel; conditional expressions with comparisons / not / and / or: only the branch taken is read) against
+           the real store after one _evaluate(t): values, exception, frame, access sequence.
+  history  every case parses its script twice, emptying the list the first call returned: the second result must not change."""
 import ast
 import copy
 import fcntl
@@ -44,10 +48,11 @@ MODEL_FILES = ['Parser/PyStr.v', 'Parser/Lex.v', 'Parser/Format.v', 'Parser/Symb
                'CodeGen/CodeGenBlock.v', 'Extract/CodeGen/ExtractCodeGen.v']
 K_NAME = ('K_parse + K_text + K_pyast + K_code (extracted Parser / CodeGen models vs fsic.parse_model, Symbol.code/equation, the '
           'CPython ast of Model.CODE, the equations block of Model.CODE) + K_eval (CodeGenF.check_ccase on PrimFloat vs the real _evaluate(t): store, exception, accesses)')
-RULE = ('fixed corpus (doc examples, defect inputs) + EXHAUSTIVE: every statement Y = a | -a | a op b | f(a) | max/min(a, b) (thorough: also a op b op c and '
+RULE = ('fixed corpus (doc examples, defect inputs) + EXHAUSTIVE: every statement Y = a | -a | a op b | f(a) | max/min(a, b) | a if b cmp c else d (thorough: also a op b op c and '
         'a op (b op c)) over 14 trap-spelled atoms x 5 operators in two layouts + sampled beyond: arithmetic programs of 1-4 equations with shared variables, trap names '
         '(keyword-prefixed, function-name prefixes, t, T, selfie, leading underscore), lags/leads up to 3 (a minority two-digit), '
-        'indexed left-hand sides, + - * / ** unary minus, exp log max min abs, redundant parentheses, random layout (blanks, tabs, '
+        'indexed left-hand sides, + - * / ** unary minus, exp log max min abs, redundant parentheses, conditional expressions (comparisons, not/and/or, '
+        'chained alternatives) at the top of a right-hand side, one-line verbatim statements between equations (kind mix), random layout (blanks, tabs, '
         'signed/padded indexes, padded braces and angle brackets, wrapped lines, comments, CRLF) x data (nice, random, a share of '
         'nan/inf/huge) x a feasible t x warnings ignored / raised + flat token sequences of the whole grammar (keywords, comparison, '
         'conditionals, namespaced functions, verbatim fragments) with random layout + a malformed stream (parser_common.gen_script '
@@ -200,6 +205,8 @@ def expected_text(st, mode):
 
 
 def stmt_text(st):
+    if st.get('verbatim') is not None:
+        return st['verbatim']
     return ''.join(tok_text(tk) + g for tk, g in zip(st['toks'], st['gaps'])) + st.get('comment', '')
 
 
@@ -514,6 +521,38 @@ def prog_case(rng, eqs, f20=False, n=None, t=None, catch=False, data=None):
     return c
 
 
+def mix_case(rng, base, vspecs):
+    """base: a 'prog' case; vspecs: [(position among the equations, [V, kV, A, kA, c])] -> kind 'mix': the same program with the one-line
+    verbatim statements  `self._V[t+kV] = self._A[t+kA] * c`  written between its equations (V, A series of the program)"""
+    def off(k):
+        return 't' if k == 0 else 't%+d' % k
+    seq = [dict(st) for st in base['stmts']]
+    vst = []
+    for pos, (V, kV, A, kA, c) in sorted(vspecs, key=lambda x: -x[0]):
+        code = 'self._%s[%s] = self._%s[%s] * %s' % (V, off(kV), A, off(kA), c)
+        seq.insert(pos, {'verbatim': '`' + code + '`'})
+        vst.append({'code': code, 'spec': [V, kV, A, kA, c]})
+    case = dict(base, kind='mix', script=join_script(rng, seq), vstmts=vst)
+    return case
+
+
+def gen_mix(rng):
+    for _ in range(50):
+        base = gen_prog(rng)
+        if base.get('f20') or base.get('fmangle'):
+            continue
+        names = list(base['data'])
+        offs = [e['lhs'][1] for e in base['eqs']] + [v[3] for e in base['eqs'] for v in tree_terms(e['rhs'])]
+        lo, hi = min([0] + offs), max([0] + offs)
+        vspecs = []
+        for _ in range(rng.choice([1, 1, 2])):
+            V = rng.choice(names)
+            A = rng.choice(names)
+            vspecs.append((rng.randint(0, len(base['eqs'])), [V, rng.randint(lo, hi), A, rng.randint(lo, hi), rng.choice(['2.0', '0.5', '-1.0', '1.25'])]))
+        return mix_case(rng, base, vspecs)
+    raise AssertionError('no base program')
+
+
 def gen_prog(rng):
     two = rng.random() < 0.12
     ctx = {'L': rng.choice([[], [1], [1], [1, 2], [1, 2, 3], [1, 3]]), 'Ld': rng.choice([[], [], [], [1], [1, 2], [3]])}
@@ -521,7 +560,7 @@ def gen_prog(rng):
         ctx['L'] = ctx['L'] + [rng.choice([10, 12])]
         ctx['Ld'] = ctx['Ld'] + ([10] if rng.random() < 0.4 else [])
     neq = rng.choice([1, 2, 2, 3, 3, 4])
-    pool = VAR_POOL + (['_x', '_'] if rng.random() < 0.04 else [])
+    pool = VAR_POOL + (['_x', '_', '__y__', 'x_'] if rng.random() < 0.05 else [])
     names = rng.sample(pool, neq + rng.randint(1, 4))
     ctx['names'] = names
     ctx['kind'] = {nm: 'v' for nm in names}
@@ -641,6 +680,9 @@ def enum_text(tier):
     bodies += [[a, o, b] for a in A for o in O for b in A]
     bodies += [[['F', f], ['('], a, [')']] for f in ('exp', 'log', 'abs', 'np.sqrt') for a in A]
     bodies += [[['F', f], ['('], a, ['O', ','], b, [')']] for f in ('max', 'min') for a in A for b in A]
+    C = [A[0], A[1], A[4], A[12]] + ([A[6], A[13]] if tier != 'quick' else [])          # X, X[-1], {a}, 2 (, < e >, 0.5)
+    bodies += [[a, ['K', 'if'], b, ['O', op], c, ['K', 'else'], d] for a in C for b in C for op in CMP_OPS for c in C for d in C
+               if not (op[0] == '<' and c[0] == 'T' and c[1] == 'v' and c[3] is None)]       # `b < NAME else` is fine, kept simple: no bare name after <
     if tier != 'quick':
         bodies += [[a, o1, b, o2, c] for a in A for o1 in O for b in A for o2 in O for c in A]
         bodies += [[a, o1, ['('], b, o2, c, [')']] for a in A[:6] + A[10:12] for o1 in O for b in A[:6] + A[10:12] for o2 in O for c in A[:4]]
@@ -698,6 +740,9 @@ def fixed_cases():
     c.update(script='Y = X [-1]', f20=True)
     out.append(c)
     out.append(prog_case(None, [{'lhs': ['Y', 0], 'rhs': ['bin', '+', V('_x'), ['num', '1']]}]))                                                            # NEW: name mangling
+    vb = prog_case(None, [{'lhs': ['Y', 0], 'rhs': ['bin', '+', V('X'), ['num', '1']]}, {'lhs': ['Z', 0], 'rhs': ['bin', '*', V('Y'), V('W')]}], n=2, t=1)
+    out.append(mix_case(None, vb, [(0, ['W', 0, 'Y', 0, '2.0'])]))          # verbatim first: reads the Y of BEFORE the pass? no: it runs where the symbol list puts it
+    out.append(mix_case(None, vb, [(1, ['X', 0, 'Y', -1, '0.5']), (2, ['Y', 0, 'Z', 0, '-1.0'])]))
     # rejected / degenerate scripts: no expectation, only the model ties speak (K_parse: same exception class as the model)
     out += [_raw(s) for s in ('2 = X', '{p} = X', 'Y = {0}', 'Y = }{', 'Y = {', 'Y = X[a]', 'Y = X[t]', 'if = 1', 'Y = X\nY = Z', 'Y = {X} + X', 'Y = X)',
                               'Y[ 1 ] = X', ' Y = X', '`x = 1`', '```\nx = 1\n```\nY = X', 'Y = X\n\n', '', 'Y = 2e5 * X', 'Y = a < b > c', 'Y = X.T')]
@@ -709,6 +754,7 @@ def gen(rng, tier):
     m = 1 if tier == 'quick' else 10
     cases += [gen_prog(rng) for _ in range(2500 * m)]
     cases += [gen_text(rng) for _ in range(2500 * m)]
+    cases += [gen_mix(rng) for _ in range(400 * m)]
     for _ in range(250 * m):
         s = pc.gen_script(rng)
         cases.append(_raw(s))
@@ -720,7 +766,14 @@ def gen(rng, tier):
 def impl(case):
     import fsic
     script = case['script']
-    o = {'line': pc.real_line(script)}
+    o = {}
+    try:        # a caller that edits the list it was given must not change what the next parse of the same text returns
+        first = fsic.parse_model(script, check_syntax=False)
+        o['line_first'] = 'O:' + pc.enc_symbols(first)
+        del first[:]
+    except Exception:      # noqa: BLE001 - the second parse below reports the class
+        pass
+    o['line'] = pc.real_line(script)
     try:
         symbols = fsic.parse_model(script, check_syntax=False)
     except Exception as e:      # noqa: BLE001 - the class name is the observation
@@ -753,7 +806,7 @@ def impl(case):
     except em.Unsupported as e:
         o['prog'] = 'untranslatable'
         o['why'] = str(e)[:80]
-    if case['kind'] != 'prog':
+    if case['kind'] not in ('prog', 'mix'):
         return o
     n, t = case['n'], case['t']
     try:
@@ -975,7 +1028,7 @@ def _unsplit_index(toks):
     return out
 
 
-def reference_pass(case, floats=False):
+def reference_pass(case, floats=False, order=None):
     """the reference interpretation -> (store after, exception class or None, expected access sequence [(kind, name, index)])"""
     import numpy as np
     t = case['t']
@@ -988,7 +1041,24 @@ def reference_pass(case, floats=False):
     exc = None
     with warnings.catch_warnings():
         warnings.simplefilter('error' if case['catch'] else 'ignore')
-        for e in symbol_order(case['eqs']):
+        todo = symbol_order(case['eqs'])
+        if order is not None:       # the statements in the order of the given symbol list: equations by left-hand name, verbatim statements by code
+            by_lhs = {e['lhs'][0]: e for e in case['eqs']}
+            by_code = {v['code']: v for v in case.get('vstmts', [])}
+            todo = [by_lhs[s[0]] if s[1] == 'ENDOGENOUS' else by_code.get(s[3]) for s in order if (s[1] != 'ENDOGENOUS' or s[0] in by_lhs)]
+        for e in todo:
+            if e is None:
+                continue
+            if 'spec' in e:         # verbatim statement  self._V[t+kV] = self._A[t+kA] * c
+                V_, kV, A_, kA, c = e['spec']
+                try:
+                    v = R(A_, kA) * float(c)
+                except Warning as w:
+                    exc = type(w).__name__
+                    break
+                acc.append(('W', V_, t + kV))
+                store[V_][t + kV] = np.float64(v)
+                continue
             try:
                 v = eval(ref_source(e['rhs'], floats), {'np': np, 'R': R, 'max': max, 'min': min, 'abs': abs, '__builtins__': {}})
             except Warning as w:
@@ -1016,6 +1086,9 @@ def oracle(case, obs):
         if kind != 'raw' or 'expect' in case:
             bad('parse|' + obs.get('parse_exc', '?'), 'a script inside the documented syntax was not accepted (%s)' % obs.get('parse_exc'))
         return fails
+    if obs.get('line_first') is not None and obs['line'] != obs['line_first']:
+        bad('parse|history-dependent', 'parse_model(script) after the caller emptied the list a first parse_model(script) had returned gives %s, the first '
+            'call gave %s: results share state' % (obs['line'][:80], obs['line_first'][:80]))
     sym = {s[0]: s for s in obs['syms']}
     skip_values = False
     # ---- text level: Symbol.equation / Symbol.code of every statement's left-hand symbol
@@ -1058,16 +1131,21 @@ def oracle(case, obs):
             else:
                 bad('names|missing' if lost else 'names|order', 'NAMES = %s, expected %s' % (obs['names'], names_want))
         endo = [s for s in obs['syms'] if s[1] == 'ENDOGENOUS' and s[2] is not None and s[3] is not None]
-        block = '\n\n'.join('        # %s\n        %s' % (s[2], s[3]) for s in endo)
+        emit = [s for s in obs['syms'] if s[1] in ('ENDOGENOUS', 'VERBATIM') and s[2] is not None and s[3] is not None]     # in SYMBOL-LIST order
+        block = '\n\n'.join('        # %s\n        %s' % (s[2], s[3]) for s in emit)
         if kind != 'raw' or 'expect' in case:
             lhs_order = [y for y in (names_want or []) if y in {w[0] for w in want}]
             if names_want is not None and [s[0] for s in endo] != lhs_order:
                 bad('CODE|statements', 'statements are emitted for %s, symbol-list order of the left-hand names is %s' % ([s[0] for s in endo], lhs_order))
             if block == '' or not obs['code'].endswith('"""\n' + block):
                 bad('CODE|statements', 'Model.CODE does not end with `# equation` + code of every endogenous symbol in symbol order')
-    if kind != 'prog':
+    if kind == 'mix':
+        got_v = [s[3] for s in obs['syms'] if s[1] == 'VERBATIM']
+        if sorted(got_v) != sorted(v['code'] for v in case['vstmts']):
+            bad('symbols|verbatim', 'verbatim statements %s, the script has %s' % (got_v, [v['code'] for v in case['vstmts']]))
+    if kind not in ('prog', 'mix'):
         return fails
-    # ---- kind 'prog': token level, then values / frame / accesses
+    # ---- kind 'prog' / 'mix': token level, then values / frame / accesses
     eqs = case['eqs']
     for e in eqs:
         s = sym.get(e['lhs'][0])
@@ -1096,14 +1174,14 @@ def oracle(case, obs):
         return fails
     names = obs['names']
     row = {nm: i for i, nm in enumerate(names)}
-    store, rexc, acc = reference_pass(case)
+    store, rexc, acc = reference_pass(case, order=[s for s in obs['syms'] if s[3] is not None and s[1] in ('ENDOGENOUS', 'VERBATIM')] if kind == 'mix' else None)
     if obs['exc'] != rexc:
         bad('evaluate|exception', '_evaluate(%d) raised %s, the equations evaluated in order raise %s' % (case['t'], obs['exc'], rexc))
         return fails
     for nm in names:
         if nm in store and obs['after'][row[nm]] != store[nm]:
             q = [a != b for a, b in zip(obs['after'][row[nm]], store[nm])].index(True)
-            lhs = any(e['lhs'][0] == nm and case['t'] + e['lhs'][1] == q for e in eqs)
+            lhs = any(e['lhs'][0] == nm and case['t'] + e['lhs'][1] == q for e in eqs) or any(v['spec'][0] == nm and case['t'] + v['spec'][1] == q for v in case.get('vstmts', []))
             bad('evaluate|value' if lhs else 'evaluate|frame', '%s[%d] is %s after _evaluate(%d), the equations give %s (before: %s)'
                 % (nm, q, obs['after'][row[nm]][q], case['t'], store[nm][q], obs['before'][row[nm]][q]))
     want_log = [[k, row.get(nm, -1), i] for k, nm, i in acc]
@@ -1115,7 +1193,7 @@ def oracle(case, obs):
 def nontrivial(case, obs):
     if obs is None or 'syms' not in obs:
         return False
-    if case['kind'] == 'prog':
+    if case['kind'] in ('prog', 'mix'):
         offs = [e['lhs'][1] for e in case['eqs']] + [v[3] for e in case['eqs'] for v in tree_terms(e['rhs'])]
         nms = {e['lhs'][0] for e in case['eqs']} | {v[2] for e in case['eqs'] for v in tree_terms(e['rhs'])}
         return 'after' in obs and (any(offs) or len(case['eqs']) >= 2 or bool(nms & TRAP_NAMES))
@@ -1134,14 +1212,16 @@ def bucket(case, obs):
     k = case['kind']
     if 'syms' not in obs:
         return k + '/' + obs.get('parse_exc', '?')
-    if k == 'prog':
-        return 'prog/%deq/%s%s' % (len(case['eqs']), 'catch' if case['catch'] else 'ignore', '/' + obs['exc'] if obs.get('exc') else '')
+    if k in ('prog', 'mix'):
+        return k + '/%deq/%s%s' % (len(case['eqs']), 'catch' if case['catch'] else 'ignore', '/' + obs['exc'] if obs.get('exc') else '')
     if k == 'text':
         return 'text/%dst/%s' % (len(case['stmts']), 'built' if 'names' in obs else 'parse-only')
     return 'raw/' + ('corpus' if 'expect' in case else 'malformed/' + ('built' if 'names' in obs else 'parse-only'))
 
 
 def shrink_candidates(case):
+    if case['kind'] == 'mix':
+        return
     if case['kind'] == 'prog':
         eqs = case['eqs']
 
